@@ -55,6 +55,11 @@ func runCrashSim(run int, seed uint64) RunReport {
 	if flTier == "thorough" {
 		cfg.MaxImages = 1200
 	}
+	if cfg.BigTxn {
+		// every image carries a ~1 MB log and a ~1300-row table: keep the exploration small
+		cfg.Nested = 0
+		cfg.MaxImages = 12
+	}
 	cr := newCrashRun(seed, cfg, "c")
 	liveCfg, liveOps = &cr.Cfg, &cr.Ops
 	cr.execute(nil, wr)
@@ -71,6 +76,14 @@ func runCrashSim(run int, seed uint64) RunReport {
 	cr.stat("aborts", e.Aborts)
 	cr.stat("conflict_aborts", e.ConflictAborts)
 	cr.stat("trace_events", len(cr.Events))
+	for i := cr.SetupEnd; i < len(cr.Events); i++ {
+		if cr.Events[i].Kind == 'L' && len(cr.Events[i].Data) > 400_000 {
+			cr.stat("log_buffer_wrap_writes", 1)
+		}
+	}
+	if cfg.BigTxn {
+		cr.stat("big_txn_runs", 1)
+	}
 	for k, n := range e.PlanShapes {
 		cr.stat("plan:"+k, n)
 	}
